@@ -67,6 +67,7 @@ class Cond:
     finding: Optional[str] = None  # key into known_findings.jsonl if expect refuted
     reach: bool = True             # run the vacuity twin
     group: str = ""
+    pres: tuple = ()               # the precondition expressions (for generating further valid instances)
 
 
 def source_hash(objs) -> Dict[str, str]:
@@ -166,7 +167,7 @@ def make_cond(glob, name, body, sig, pres, fixed=None, **kw):
     glob["BODIES"][name] = lambda E, **k: body(E, **fixed, **k)
     expr = "BODIES[%r](SYM, %s)" % (name, ", ".join("%s=%s" % (q, q) for q in params))
     fn = mkh(glob, "h_" + name, sig, pres, expr)
-    return Cond(name, fn, **kw)
+    return Cond(name, fn, pres=tuple(pres), **kw)
 
 
 def split_conds(glob, name, body, sig, pres, over, values, fixed=None, bounds="", **kw):
